@@ -135,7 +135,7 @@ func (i *IRCServer) VerifProject() map[string]interface{} {
 		"rev": int64(i.Config.Revision), "opers": opers, "svc": svc,
 		"maxs": int64(i.Config.MaxSessions), "maxc": int64(i.Config.MaxChannels),
 		"banned": banned, "exp": int64(time.Duration(i.Config.SessionExpiration) / time.Second),
-		"capcfg":   i.Config.CaptchaURL != "" && i.Config.CaptchaHMACSecret != nil,
+		"capcfg":   i.Config.CaptchaURL != "" && len(i.Config.CaptchaHMACSecret) > 0,
 		"caplogin": i.Config.CaptchaRequiredForLogin,
 	}
 	return map[string]interface{}{"ss": ss, "nk": nk, "ch": ch, "holds": holds, "srv": srv, "lp": lp, "cfg": cfg}
